@@ -93,13 +93,19 @@ func freshTag() string { return fmt.Sprintf("T%d", atomic.AddInt64(&tagSeq, 1)) 
 
 // tagged state: one pin whose name is the tag.
 func saveTagged(base string, keep int, tag string, pid peer.ID) error {
+	return saveTaggedAs(base, "", keep, tag, pid)
+}
+
+// saveTaggedAs: suffix is appended to the data_folder setting ("/": the same
+// folder spelled with a trailing slash).
+func saveTaggedAs(base, suffix string, keep int, tag string, pid peer.ID) error {
 	st := newDsState()
 	p := dataPin(cidV1("rotation-tag"))
 	p.Name = tag
 	if err := st.Add(bg, p); err != nil {
 		return err
 	}
-	return raft.SnapshotSave(raftCfg(filepath.Join(base, "raft"), keep), st, []peer.ID{pid})
+	return raft.SnapshotSave(raftCfg(filepath.Join(base, "raft")+suffix, keep), st, []peer.ID{pid})
 }
 
 // readTag recovers the identity of a data folder the way an operator would:
@@ -345,6 +351,12 @@ type rotationStats struct {
 // explicit-state BFS (a state already reached is not expanded again);
 // dedup=false: the full history tree to the depth bound.
 func explore(root string, sec *ev.Section, n, depth int, dedup bool, pid peer.ID) (rotationStats, error) {
+	return exploreAs(root, sec, n, depth, dedup, pid, "")
+}
+
+// exploreAs: the operations are given the data_folder setting with suffix
+// appended (observation always uses the plain path).
+func exploreAs(root string, sec *ev.Section, n, depth int, dedup bool, pid peer.ID, suffix string) (rotationStats, error) {
 	defer os.RemoveAll(root)
 	var seq int
 	newDir := func() string {
@@ -403,9 +415,9 @@ func explore(root string, sec *ev.Section, n, depth int, dedup bool, pid peer.ID
 			switch op {
 			case "SnapshotSave":
 				newTag = freshTag()
-				err, panicked = guard(func() error { return saveTagged(child, n, newTag, pid) })
+				err, panicked = guard(func() error { return saveTaggedAs(child, suffix, n, newTag, pid) })
 			case "CleanupRaft":
-				err, panicked = guard(func() error { return raft.CleanupRaft(raftCfg(filepath.Join(child, "raft"), n)) })
+				err, panicked = guard(func() error { return raft.CleanupRaft(raftCfg(filepath.Join(child, "raft")+suffix, n)) })
 			}
 			post := observe(child)
 			stats.transitions++
@@ -563,6 +575,26 @@ func TestBackupRotation(t *testing.T) {
 	}
 	for _, n := range []int{1, 2, 3, 5} {
 		run(secB, n, true)
+	}
+	// the same folder named with a trailing slash in the configuration
+	secS := R.Sec("b3:backup rotation, data_folder spelled with a trailing slash")
+	secS.Bounds["keep_N"] = []int{1, 2}
+	secS.Bounds["depth"] = depth
+	secS.Bounds["data_folder"] = "<dir>/raft/ (filepath-equivalent to <dir>/raft)"
+	for _, n := range []int{1, 2} {
+		n := n
+		wg.Add(1)
+		root := scratch(t, fmt.Sprintf("rot-slash-n%d", n))
+		go func() {
+			defer wg.Done()
+			sem <- struct{}{}
+			defer func() { <-sem }()
+			if _, err := exploreAs(root, secS, n, depth, true, pid, "/"); err != nil {
+				mu.Lock()
+				R.Broken("rotation (trailing slash) N=%d: %v", n, err)
+				mu.Unlock()
+			}
+		}()
 	}
 	for _, n := range treeNs {
 		run(secT, n, false)
